@@ -331,6 +331,7 @@ Proof.
   - stmt_tac.
   - (* SFor1 *) stmt_tac.
   - stmt_tac.
+  - (* SForMulti *) stmt_tac.
   - (* SForC *) stmt_tac.
   - stmt_tac.
   - stmt_tac.
@@ -371,6 +372,7 @@ Proof.
   - t_stmt.
   - t_stmt.
   - destruct entries as [|[key val] more]; [t_stmt|]. destruct v; t_stmt.
+  - destruct ks as [|k ks]; [t_stmt|]. destruct entries as [|[key val] more]; [t_stmt|]. destruct ks; t_stmt.
   - t_stmt.
   - destruct nvs as [|[n v] rest]; t_stmt.
   - destruct entries as [|[k v] more]; [t_stmt|]. destruct keys as [|key krest]; t_stmt.
